@@ -52,6 +52,9 @@ func (o *Object) Size() uint64 {
 type Ref struct {
 	Name string `json:"name"`
 	OID  string `json:"oid"`
+	// Symref: the reference is symbolic (stored as "ref: <Symref>"); OID is
+	// the id its target resolves to, which is what git lists for it.
+	Symref string `json:"symref,omitempty"`
 }
 
 // ConfigEntry is one `-c key=value` command-scope entry (GIT_CONFIG_COUNT).
